@@ -435,12 +435,12 @@ def code_to_spec(ctx):
     ctx.cov['history_two_or_more_arrays'] = sum(1 for e in evs if len({c['arr'] for c in e['sweep'] if c['arr']}) >= 2)
     ctx.cov['history_erases'] = sum(1 for e in evs if e['op'] == 'erase' and e['ok'])
     ctx.cov['history_failed_statements'] = sum(1 for e in evs if e['kind'] == 'err')
-    if not ctx.cov['history_two_or_more_arrays'] or not ctx.cov['history_erases']:
-        raise core.MachineryError('vacuous histories: never two arrays alive / no ERASE')
     e = evs[len(evs) // 2]
     ctx.sample({'stmt': e['stmt'], 'area': e['area'], 'cells': [[c['n'], c['vp'], c['vps'], c['pk'], c['val']] for c in e['sweep'][:5]]})
     ns = validate(ctx, d, 'history')
     ctx.cov['traces_validated_against_impl'] += ns
+    if not ctx.violations and (not ctx.cov['history_two_or_more_arrays'] or not ctx.cov['history_erases']):
+        raise core.MachineryError('vacuous histories: never two arrays alive / no ERASE')
 
 
 def model_phases(ctx):
